@@ -168,35 +168,37 @@ ACCEPT_ARM_ALLOWED = {
 
 def r5(ctx):
     rep = Report("C18.R5", "a fault of one accepted connection does not end the accept loop: inside the loop no `?` propagates a per-connection error out of run() (two setsockopt calls are whitelisted with a reason)", floor=3)
-    f = ctx.facts
-    from rules.c17 import natural_loop, chase_calls, RUN
+    from rules.c17 import accept_paths
 
-    b = f.one(RUN)
+    b, rounds = accept_paths(ctx)
     rep.analysed(b)
-    loops = [natural_loop(b, t_, h) for t_, h in b.has_cycle()]
-    acc = [bb for bb, t in b.calls() if strip_generics(t.callee.path or "") == "tokio::net::TcpListener::accept"]
-    outer = [L for L in loops if acc and acc[0] in L]
-    if not outer:
-        rep.bad("accept-loop", "cannot find the accept loop", b.loc())
-        return rep
-    L = max(outer, key=len)
+    rep.check(bool(rounds), "accept-loop", "%d paths through a round of the accept loop" % len(rounds), "cannot find the accept loop", b.loc())
     n = 0
-    for bb, t in b.calls():
-        # the test of a `?` lies inside the loop; its error arm (from_residual) is a loop exit
-        if bb not in L or t.callee.name != "branch" or not (t.callee.trait or "").endswith("ops::Try"):
-            continue
-        n += 1
+    seen = set()
+    for p, evs in rounds:
+        if p.cut or p.ret is None:
+            continue  # the round ends by going back to accept
+        # run() returns after a connection was accepted: only the whitelisted setsockopt failures may do that
+        names = [x[1] for x in atoms(p.ret) if isinstance(x, tuple) and x and x[0] == "call"]
         origin = None
-        for nm in list(ACCEPT_ARM_ALLOWED) + ["*"]:
-            if nm != "*" and chase_calls(b, t.args[0], lambda x, nm=nm: x == nm):
+        for nm in ACCEPT_ARM_ALLOWED:
+            if any(strip_generics(x) == nm for x in names):
                 origin = nm
-                break
-        rep.check(origin is not None, "accept-loop:?-on-%s" % (origin or "other").split("::")[-1] + ("" if origin else "#%d" % n), "`?` inside the accept loop only on %s" % (origin or "?"), "an error of one accepted connection is propagated with `?` out of MemcacheTcpServer::run (not one of the whitelisted setsockopt calls): the listener stops and no new client is served — e.g. a connection reset while still in the backlog makes peer_addr()/getpeername fail with ENOTCONN", loc_s(t.span))
-    # explicit returns inside the loop
-    for x in sorted(L):
-        if b.blocks[x].term.k == "return":
-            rep.bad("accept-loop:return", "the accept loop contains a return", loc_s(b.blocks[x].term.span))
-    rep.ok("accept-loop:examined", "%d `?` sites inside the accept loop examined" % n, b.loc())
+        is_err = isinstance(p.ret, Struct) and p.ret.variant == "Err"
+        if not is_err:
+            if "return" not in seen:
+                seen.add("return")
+                rep.bad("accept-loop:return", "the accept loop contains a return: run() ends with %s after a connection was accepted, and no further client is served" % short(p.ret, 60), b.loc())
+            continue
+        k = (origin or "other").split("::")[-1]
+        if origin is None:
+            n += 1
+            k = "other#%d" % n
+        if k in seen:
+            continue
+        seen.add(k)
+        rep.check(origin is not None, "accept-loop:?-on-%s" % k, "`?` inside the accept loop only on %s" % (origin or "?"), "an error of one accepted connection (%s) is propagated out of MemcacheTcpServer::run (not one of the whitelisted setsockopt calls): the listener stops and no new client is served — e.g. a connection reset while still in the backlog makes peer_addr()/getpeername fail with ENOTCONN" % short(p.ret, 80), b.loc())
+    rep.ok("accept-loop:examined", "%d paths through the accept loop examined" % len(rounds), b.loc())
     for nm, why in ACCEPT_ARM_ALLOWED.items():
         rep.advise("%s? may end the accept loop: %s" % (nm.split("::")[-1], why))
     return rep
